@@ -95,18 +95,33 @@ Vals(T) ==
     [] T.k = "tup" -> (IF Len(T.ts) = 2 THEN Pairs(Vals(T.ts[1]), Vals(T.ts[2])) ELSE {})
     [] OTHER -> {}
 
+\* abstract shapes of the hand-written codecs: every prefix byte; the interesting ones with every continuation
+PSmall == 0..7 \cup {128, 255}
+TailRests == {<<>>, <<128>>, <<128, 0, 0, 0, 0>>, <<0, 0, 0, 0>>, <<0, 0, 0, 1, 7>>, <<0, 0, 0, 1>>,
+              <<255, 1, 128, 0, 0, 0, 1, 0, 0, 0, 9>>, <<0, 0, 0, 0, 0>>, <<0, 0, 0, 2, 7, 7>>, <<255, 255, 255, 255>>}
+
+\* structured strings for the proof-of-space grammar (its shortest encoding is longer than MaxLen):
+\* challenge, optional pool key, prefix byte, optional contract hash, plot key, version-specific tail
+PosStrings == {ch \o pk \o <<p>> \o cph \o ppk \o tail :
+                 ch \in {<<0>>, <<2>>}, pk \in {<<0>>, <<1, 128, 1>>, <<1, 192, 0>>, <<2>>}, p \in 0..5, cph \in {<<>>, <<9>>},
+                 ppk \in {<<128, 1>>, <<192, 0>>, <<128, 0>>},
+                 tail \in {<<7, 0>>, <<7, 1, 5>>, <<7>>, <<0, 1, 2, 3, 0>>, <<0, 1, 2, 3, 1, 9>>, <<0, 1, 2, 3, 2, 9>>, <<0, 1, 2, 3>>}}
+
 VARIABLES x, phase
 Init == /\ phase = 0
         /\ \/ /\ Mode = "scaled"
               /\ \/ \E T \in ScaledTypes, b \in Strings : x = [k |-> "bytes", t |-> T, b |-> b]
+                 \/ \E b \in PosStrings : x = [k |-> "bytes", t |-> PosT, b |-> b]
+                 \/ \E T \in {OptT(PosT), VecT(PosT)}, b \in PosStrings : x = [k |-> "bytes", t |-> T, b |-> <<1>> \o b]
                  \/ \E T \in D2 : \E v \in Vals(T) : x = [k |-> "val", t |-> T, v |-> v]
            \/ /\ Mode = "gen"
               /\ \/ \E g \in GenTypes, b \in Strings : x = [k |-> "bytes", t |-> g.t, b |-> b, name |-> g.name]
-                 \/ \E p \in 0..255, rest \in {<<>>, <<128>>, <<128, 0, 0, 0, 0>>, <<0, 0, 0, 0>>, <<0, 0, 0, 1, 7>>, <<0, 0, 0, 1>>,
-                                               <<255, 1, 128, 0, 0, 0, 1, 0, 0, 0, 9>>, <<0, 0, 0, 0, 0>>, <<0, 0, 0, 2, 7, 7>>, <<255, 255, 255, 255>>} :
-                      x = [k |-> "tail", tail |-> <<p>> \o rest]
+                 \/ \E p \in 0..255, rest \in TailRests :
+                      /\ (p \in PSmall \/ rest \in {<<>>, <<0, 0, 0, 0>>})
+                      /\ x = [k |-> "tail", tail |-> <<p>> \o rest]
                  \/ \E pkp \in {0, 1, 2, 255}, p \in 0..255, hasc \in BOOLEAN, shape \in 1..4 :
-                      x = [k |-> "pos", pkp |-> pkp, p |-> p, hasc |-> hasc, shape |-> shape]
+                      /\ (p \in PSmall \/ (pkp = 1 /\ ~hasc /\ shape = 1))
+                      /\ x = [k |-> "pos", pkp |-> pkp, p |-> p, hasc |-> hasc, shape |-> shape]
 Next == phase = 0 /\ phase' = 1 /\ UNCHANGED x
 
 IsBytes == phase = 1 /\ x.k = "bytes"
@@ -127,7 +142,8 @@ PrefixFree == IsBytes => \A tr \in BOOLEAN : \A m \in 0..(Len(x.b) - 1) :
 \* the trusted decoder accepts everything the untrusted one accepts, with the same value
 TrustedAgrees == IsBytes => (R(FALSE).ok => R(TRUE).ok /\ R(TRUE).v = R(FALSE).v)
 \* the digest form is the encoding itself, except inside a v2 proof of space
-ContainsPos(T) == T.k = "pos" \/ (T.k = "opt" /\ T.t.k = "pos")
+RECURSIVE ContainsPos(_)
+ContainsPos(T) == T.k = "pos" \/ (T.k \in {"opt", "vec"} /\ ContainsPos(T.t))
 HashIsShaOfEncoding == IsBytes => (R(FALSE).ok =>
   LET d == Digest(Ctx(x.b, FALSE), x.t, R(FALSE).v) IN
   /\ ~ContainsPos(x.t) => d = x.b
